@@ -699,7 +699,9 @@ def where_of_(fi, e):
     return "%s:%d (%s)" % (fi.module.relpath, getattr(e.node, "lineno", 0), fi.qualname)
 
 
-def _caller_holds(ctx, fi, ck, cik, Qx):
+def _caller_holds(ctx, fi, ck, cik, Qx, depth=0):
+    """every call of fi from (ck, cik) happens with the queue's lock held -- directly, or because that caller is
+    itself only ever called with it held (helpers of helpers)"""
     cfi = ctx.prog.functions[ck]
     cci = ctx.prog.classes.get(cik) if cik else None
     ps, it = ctx.paths(cfi, cci, depth=0)
@@ -707,8 +709,13 @@ def _caller_holds(ctx, fi, ck, cik, Qx):
         for e in p.calls():
             if e.d["callee"] is fi and e.fn is cfi:
                 r = q.recv(e)
-                if not (r is not None and Qx.lock_held(e, r)):
-                    return False
+                if r is not None and Qx.lock_held(e, r):
+                    continue
+                if depth < 3:
+                    cs = ctx.callgraph().get(cfi.key, set())
+                    if cs and all(_caller_holds(ctx, cfi, k2, c2, Qx, depth + 1) for k2, c2 in cs):
+                        continue
+                return False
     return True
 
 
